@@ -357,8 +357,8 @@ func init() {
 		return out
 	}
 	regExt(map[string]externalFn{
-		"regexp.MustCompile": func(fr *frame, a []value) value { return compile(fr, a, true) },
-		"regexp.Compile":     func(fr *frame, a []value) value { return compile(fr, a, false) },
+		"regexp.MustCompile":      func(fr *frame, a []value) value { return compile(fr, a, true) },
+		"regexp.Compile":          func(fr *frame, a []value) value { return compile(fr, a, false) },
 		"(*regexp.Regexp).String": func(fr *frame, a []value) value { return rxOf(a[0]).re.String() },
 		"(*regexp.Regexp).SubexpNames": func(fr *frame, a []value) value {
 			ns := rxOf(a[0]).re.SubexpNames()
